@@ -41,10 +41,11 @@ def run_tests(wt, tag):
 def main():
     prop, x = sys.argv[1], sys.argv[2]
     notests = "--no-tests" in sys.argv
-    wt = f"/tmp/wt/{prop}"
+    rnd = next((a.split("=")[1] for a in sys.argv if a.startswith("--round=")), "")
+    wt = f"/tmp/wt/{rnd + '_' if rnd else ''}{prop}"
     patch = f"{wt}/seed_{x}.patch"
     demo = f"demo_{x}.py"
-    meta = {"property": prop, "variant": x}
+    meta = {"property": prop, "variant": x, "round": rnd or "r1"}
     os.makedirs("/tmp/scratch", exist_ok=True)
     sh("git checkout -- src", cwd=wt)
     rc, out = sh(f"git apply {patch}", cwd=wt)
@@ -56,7 +57,7 @@ def main():
     meta["demo_output_with_change"] = out1[-1500:]
     regress = None
     if not notests:
-        regress = run_tests(wt, f"{prop}{x}")
+        regress = run_tests(wt, f"{prop}{rnd}{x}")
         meta["baseline_regressions_with_change"] = regress
     sh("git checkout -- src", cwd=wt)
     rc0, out0 = sh(f"/venv/bin/python {demo}", cwd=wt, env={"PYTHONPATH": f"{wt}/src"})
@@ -90,7 +91,7 @@ def main():
         print("     ", d[:260])
     for e in errors:
         print("     ", e)
-    d = os.path.join(VERIF, "seeded", f"{prop}-{x}")
+    d = os.path.join(VERIF, "seeded", f"{prop}-{rnd + '-' if rnd else ''}{x}")
     os.makedirs(d, exist_ok=True)
     shutil.copy(patch, os.path.join(d, "patch.diff"))
     shutil.copy(f"{wt}/{demo}", os.path.join(d, "demo.py"))
